@@ -20,3 +20,8 @@ job('strpriv', 'find_cs_needle', 'h_find_cs_needle', ['C07', 'C09'], expect=[r's
 job('strpriv_mod', 'find_ci_needle', 'h_find_ci_needle', ['C07', 'C09'], expect=[r'stp_find_ci_needle\.postcondition\.[123]', r'stp_find_ci__pc_sz_pc_sz\.loop0\.invariant_step'])
 PROPS['C06'] = dict(level='proof', explanation='buffer / string compare = first differing element under unsigned order, then length, for operands of any length; case-insensitive compare = first fold-difference; fold functions over all 256 values', trusted_base=['char_traits<char>::compare contract (prelude.h tr_compare_char)'], assumptions=[])
 PROPS['C07'] = dict(level='proof', explanation='needle and character search return the first occurrence for haystacks and needles of unbounded length (witness ghosts instead of quantifiers)', trusted_base=['char_traits<char>::find / compare contracts (prelude.h)'], assumptions=[])
+BOPS = ['ST::buffer<char>::compare|(const buffer<char> &) const', 'ST::buffer<char>::operator==|(const buffer<char> &)', 'ST::buffer<char>::operator!=|(const buffer<char> &)', 'ST::buffer<char>::operator<',
+        'ST::buffer<char>::compare_n|(const buffer<char> &', 'ST::buffer<char>::compare|(const char *) const']
+unit('buffer_ops', functions=BOPS, stubs=['ST_buffer_char_compare__pc_sz_pc_sz', 'ST_buffer_char_compare__pc_sz_pc_sz_sz'], spec=None, harness='harness/buffer_ops.c', include=[])
+job('buffer_ops', 'buffer.ops', 'h_buffer_ops', ['C06', 'C04'], solver='cadical', expect=[r'ST_buffer_char_ops\.postcondition\.[1-4]'])
+job('buffer_ops', 'buffer.ops_cstr', 'h_buffer_ops_cstr', ['C06'], solver='cadical', expect=[r'ST_buffer_char_ops_cstr\.postcondition\.[12]'])
